@@ -95,3 +95,101 @@ Print Assumptions C07_coord2cell_trunc_outside_refuted.
 Example C07_nonvacuous :
   coord2cell RR 4 3 10 20 2 (cell2coord RR 4 3 10 20 2 7) = 7%Z.
 Proof. exact footprint_example. Qed.
+
+(* ================================================================== *)
+(* The same property on the REGENERATED program: [program] is the MiniC  *)
+(* translation of src/hydrodiy/gis/c_grid.c produced from the tree under *)
+(* test on every run (Gen/KernelsAst.v); [exec_fun] its interpreter.     *)
+(* ================================================================== *)
+From Coq Require Import String Lia.
+From Hy Require Import Base.MiniC Gen.KernelsAst Proofs.RefineGrid Proofs.RefineGridGeom Proofs.KernelGrid.
+Open Scope string_scope.
+Open Scope list_scope.
+Open Scope Z_scope.
+
+(* c_cell2rowcol = the model, for every grid shape, every list of cell numbers (valid
+   or not), every initial buffer content *)
+Theorem C07_kernel_cell2rowcol_refines_model :
+  forall {T} (N : NumOps T) (X : NumLit T) nrows ncols idx junk n,
+  List.length junk = (2 * List.length idx)%nat ->
+  (List.length idx < n)%nat ->
+  exec_fun N X program (S n) "c_cell2rowcol"
+    [AVI nrows; AVI ncols; AVI (MiniC.zlen idx); AVArrI idx; AVArrI junk]
+  = Ok (RI 0, [VArrI idx; VArrI (rc_out nrows ncols idx)]).
+Proof. exact @refine_cell2rowcol. Qed.
+Print Assumptions C07_kernel_cell2rowcol_refines_model.
+
+(* c_cell2coord = the model, any arithmetic instance in which the C literal 0.5 is the
+   model's 1/(1+1) (binary64, the reals, the reals with NaN): NaN pair for invalid cells *)
+Theorem C07_kernel_cell2coord_refines_model :
+  forall {T} (N : NumOps T) (X : NumLit T) nrows ncols (xll yll csz : T) idx junk n,
+  half_law N X ->
+  List.length junk = (2 * List.length idx)%nat ->
+  (List.length idx < n)%nat ->
+  exec_fun N X program (S n) "c_cell2coord"
+    [AVI nrows; AVI ncols; AVF xll; AVF yll; AVF csz; AVI (MiniC.zlen idx); AVArrI idx; AVArrF junk]
+  = Ok (RI 0, [VArrI idx; VArrF (cc_out N nrows ncols xll yll csz idx)]).
+Proof. exact @refine_cell2coord. Qed.
+Print Assumptions C07_kernel_cell2coord_refines_model.
+
+Example C07_kernel_half_law_instances : half_law RR XRR /\ half_law RN XRN /\ half_law F64 XF64.
+Proof. exact (conj half_law_RR (conj half_law_RN half_law_F64)). Qed.
+
+(* c_coord2cell = the model over the reals (and the reals with NaN): every point -
+   inside, outside, NaN, csz = 0 -, any grid of at most 2^63 rows / columns; the
+   double -> long long conversions are never out of range *)
+Theorem C07_kernel_coord2cell_refines_model :
+  (forall nrows ncols (xll yll csz : R) xy junk n,
+     nrows <= cmax64 -> ncols <= cmax64 ->
+     List.length xy = (2 * List.length junk)%nat -> (List.length junk < n)%nat ->
+     exec_fun RR XRR program (S n) "c_coord2cell"
+       [AVI nrows; AVI ncols; AVF xll; AVF yll; AVF csz; AVI (MiniC.zlen junk); AVArrF xy; AVArrI junk]
+     = Ok (RI 0, [VArrF xy; VArrI (map (coord2cell RR nrows ncols xll yll csz) (pairs xy))])) /\
+  (forall nrows ncols (xll yll csz : option R) xy junk n,
+     nrows <= cmax64 -> ncols <= cmax64 ->
+     List.length xy = (2 * List.length junk)%nat -> (List.length junk < n)%nat ->
+     exec_fun RN XRN program (S n) "c_coord2cell"
+       [AVI nrows; AVI ncols; AVF xll; AVF yll; AVF csz; AVI (MiniC.zlen junk); AVArrF xy; AVArrI junk]
+     = Ok (RI 0, [VArrF xy; VArrI (map (coord2cell RN nrows ncols xll yll csz) (pairs xy))])).
+Proof. exact (conj refine_coord2cell_raw_RR refine_coord2cell_raw_RN). Qed.
+Print Assumptions C07_kernel_coord2cell_refines_model.
+
+(* c_neighbours = the model: the nine slots for a valid cell, a positive code and an
+   untouched buffer for an invalid one *)
+Theorem C07_kernel_neighbours_refines_model :
+  forall {T} (N : NumOps T) (X : NumLit T) nrows ncols idx nb n,
+  List.length nb = 9%nat -> (3 < n)%nat ->
+  match neighbours nrows ncols idx with
+  | Some l =>
+      exec_fun N X program (S n) "c_neighbours" [AVI nrows; AVI ncols; AVI idx; AVArrI nb]
+      = Ok (RI 0, [VArrI l])
+  | None =>
+      exists code, 0 < code /\
+      exec_fun N X program (S n) "c_neighbours" [AVI nrows; AVI ncols; AVI idx; AVArrI nb]
+      = Ok (RI code, [VArrI nb])
+  end.
+Proof. exact @refine_neighbours. Qed.
+Print Assumptions C07_kernel_neighbours_refines_model.
+
+(* coord2cell(cell2coord c) = c EXECUTED on the translated kernels, over the reals *)
+Theorem C07_kernel_coord2cell_cell2coord :
+  forall nrows ncols (xll yll csz : R) idx bufxy bufc n,
+  (0 < csz)%R -> 0 < ncols -> nrows <= cmax64 -> ncols <= cmax64 ->
+  Forall (fun c => 0 <= c < nrows * ncols) idx ->
+  List.length bufxy = (2 * List.length idx)%nat -> List.length bufc = List.length idx ->
+  (List.length idx < n)%nat ->
+  exists xy,
+    exec_fun RR XRR program (S n) "c_cell2coord"
+      [AVI nrows; AVI ncols; AVF xll; AVF yll; AVF csz; AVI (MiniC.zlen idx); AVArrI idx; AVArrF bufxy]
+      = Ok (RI 0, [VArrI idx; VArrF xy]) /\
+    exec_fun RR XRR program (S n) "c_coord2cell"
+      [AVI nrows; AVI ncols; AVF xll; AVF yll; AVF csz; AVI (MiniC.zlen bufc); AVArrF xy; AVArrI bufc]
+      = Ok (RI 0, [VArrF xy; VArrI idx]).
+Proof. exact kernel_coord2cell_cell2coord. Qed.
+Print Assumptions C07_kernel_coord2cell_cell2coord.
+
+(* non-vacuity: the translated kernels run in binary64 on a 4x3 grid *)
+Example C07_kernel_runs :
+  exec_fun F64 XF64 program 30 "c_cell2rowcol" [AVI 4; AVI 3; AVI 3; AVArrI [7; 0; 12]; AVArrI [9; 9; 9; 9; 9; 9]]
+  = Ok (RI 0, [VArrI [7; 0; 12]; VArrI [2; 1; 0; 0; -1; -1]]).
+Proof. vm_compute. reflexivity. Qed.
